@@ -357,3 +357,201 @@ func init() {
 		fmt.Fprintf(out, "blocked=%d bestmoves=%d readyoks=%d\n", len(blocked), nb, nr)
 	}
 }
+
+// C16: query commands (searches run to completion or stopped at a sync phase, perft, tperft, eval, tostr, isready,
+// setoption) never change the game position.  One line per trial: ok / what changed.
+func init() {
+	commands["queries"] = func(args []string) {
+		n := intArg(args, 0, 40)
+		r := newRng(seedFromEnv() + 1616)
+		var fens []string
+		fens = append(fens, corpusFens[:8]...)
+		for len(fens) < 30 {
+			gm := playout(r, "startpos", 10+r.intn(120))
+			fens = append(fens, gm.fens[len(gm.fens)-1])
+		}
+		trials, bad := 0, 0
+		for t := 0; t < n; t++ {
+			fen := fens[r.intn(len(fens))]
+			if _, err := engine.NewGeneratorFromFen(fen); err != nil {
+				continue
+			}
+			engine.VerifResetSession()
+			oc := startCollect()
+			exited := make(chan struct{}, 8)
+			var holdAt phase
+			var holdOnce *sync.Once
+			reached := make(chan struct{}, 1)
+			release := make(chan struct{})
+			engine.VerifSyncHook = func(point, a, b int) {
+				if point == engine.VsAfterBestmove {
+					exited <- struct{}{}
+				}
+				if holdOnce != nil && point == holdAt.point && (point != engine.VsRootMoveDone || (a == holdAt.a && b == holdAt.b)) {
+					hit := false
+					holdOnce.Do(func() { hit = true })
+					if hit {
+						reached <- struct{}{}
+						<-release
+					}
+				}
+			}
+			setup := "position fen " + fen
+			moves := ""
+			if r.chance(1, 3) {
+				gen, _ := engine.NewGeneratorFromFen(fen)
+				ms := legalMoves(gen)
+				if len(ms) > 0 {
+					moves = " moves " + ms[r.intn(len(ms))].text
+				}
+			}
+			engine.ParseInputLine(setup + moves)
+			cur := engine.VerifCurrent()
+			if cur == nil {
+				oc.stop()
+				continue
+			}
+			before := engine.VerifSnapshot(cur.VerifTop())
+			legalBefore := engine.VerifLegal(cur)
+			terminal := legalBefore == ""
+			var script []string
+			nq := 1 + r.intn(6)
+			for q := 0; q < nq; q++ {
+				switch r.intn(9) {
+				case 0:
+					script = append(script, fmt.Sprintf("perft %d", 1+r.intn(2)))
+				case 1:
+					script = append(script, fmt.Sprintf("tperft %d", 1+r.intn(2)))
+				case 2:
+					script = append(script, "eval")
+				case 3:
+					script = append(script, "tostr")
+				case 4:
+					script = append(script, "isready")
+				case 5:
+					script = append(script, fmt.Sprintf("setoption name currmoveLogInterval value %d", 10+r.intn(500)))
+				case 6:
+					script = append(script, fmt.Sprintf("go depth %d", 1+r.intn(3)))
+				case 7:
+					script = append(script, "go movetime 15")
+				default:
+					script = append(script, fmt.Sprintf("go infinite @%d,%d", 1+r.intn(3), r.intn(3)))
+				}
+			}
+			problem := ""
+			for _, c := range script {
+				if strings.HasPrefix(c, "go infinite @") {
+					var d, k int
+					fmt.Sscanf(c, "go infinite @%d,%d", &d, &k)
+					holdAt = phase{engine.VsRootMoveDone, d, k}
+					holdOnce = &sync.Once{}
+					release = make(chan struct{})
+					engine.ParseInputLine("go infinite")
+					select {
+					case <-reached:
+						engine.ParseInputLine("stop")
+						close(release)
+					case <-time.After(2 * time.Second):
+						holdOnce.Do(func() {})
+						engine.ParseInputLine("stop")
+						close(release)
+					}
+					select {
+					case <-exited:
+					case <-time.After(10 * time.Second):
+						problem = "search did not end after stop"
+					}
+					holdOnce = nil
+				} else if strings.HasPrefix(c, "go") {
+					engine.ParseInputLine(c)
+					select {
+					case <-exited:
+					case <-time.After(20 * time.Second):
+						problem = "no bestmove for " + c
+					}
+				} else {
+					engine.ParseInputLine(c)
+				}
+				if problem != "" {
+					break
+				}
+				if engine.VerifCurrent().VerifPlyIdx() != 0 {
+					problem = "ply index of the position stack is not back to zero after `" + c + "`"
+					break
+				}
+				if engine.VerifSnapshot(engine.VerifCurrent().VerifTop()) != before {
+					problem = "game position changed by `" + c + "`"
+					break
+				}
+			}
+			if problem == "" && engine.VerifLegal(engine.VerifCurrent()) != legalBefore {
+				problem = "legal moves differ after the queries"
+			}
+			// a subsequent search behaves as in a session that only set the position
+			var lateLines, freshLines []string
+			if problem == "" && !terminal {
+				n0 := len(oc.snapshot())
+				engine.ParseInputLine("go depth 2")
+				select {
+				case <-exited:
+				case <-time.After(20 * time.Second):
+					problem = "no bestmove for the probe search"
+				}
+				time.Sleep(3 * time.Millisecond)
+				lateLines = oc.snapshot()[n0:]
+			}
+			engine.VerifSyncHook = nil
+			oc.stop()
+			if problem == "" && !terminal {
+				engine.VerifResetSession()
+				oc2 := startCollect()
+				engine.VerifSyncHook = func(point, a, b int) {
+					if point == engine.VsAfterBestmove {
+						exited <- struct{}{}
+					}
+				}
+				engine.ParseInputLine(setup + moves)
+				engine.ParseInputLine("go depth 2")
+				select {
+				case <-exited:
+				case <-time.After(20 * time.Second):
+				}
+				time.Sleep(3 * time.Millisecond)
+				engine.VerifSyncHook = nil
+				freshLines = oc2.stop()
+				pick := func(ls []string) string {
+					for i := len(ls) - 1; i >= 0; i-- {
+						if strings.HasPrefix(ls[i], "bestmove") {
+							return ls[i]
+						}
+					}
+					return ""
+				}
+				score := func(ls []string) string {
+					for i := len(ls) - 1; i >= 0; i-- {
+						if strings.HasPrefix(ls[i], "info score") {
+							f := strings.Fields(ls[i])
+							if len(f) > 3 {
+								return f[2] + " " + f[3]
+							}
+						}
+					}
+					return ""
+				}
+				if pick(lateLines) != pick(freshLines) || score(lateLines) != score(freshLines) {
+					// killer moves legitimately survive between two searches of one position (only `position` clears them),
+					// so node counts may differ; the move and the score of a depth-2 search must not
+					problem = fmt.Sprintf("search after the queries differs from a fresh session: %q/%q vs %q/%q", pick(lateLines), score(lateLines), pick(freshLines), score(freshLines))
+				}
+			}
+			trials++
+			status := "ok"
+			if problem != "" {
+				status = "BAD " + problem
+				bad++
+			}
+			fmt.Fprintf(out, "%s\t%s%s\t%s\n", status, setup, moves, strings.Join(script, "; "))
+		}
+		fmt.Fprintf(os.Stderr, "STATS queries total=%d bad=%d\n", trials, bad)
+	}
+}
